@@ -511,4 +511,608 @@ theorem rename_only_when_complete (s : Disk) (op : DOp) (a b : FName) (h : FsOp.
   | advRelease rid => simp [fsOps] at h
   | closeReader rid => simp [fsOps] at h
 
+/-! ### committed snapshot files are complete — at every crash instant of every script -/
+
+/-- every committed snapshot file `<L>_<S>.rdb` of the directory holds `S` bytes -/
+def RdbLenOk (fs : FS) : Prop :=
+  ∀ e ∈ fs, ∀ L S, parseRdbName e.1 = some (L, S) → e.2.length = S
+
+/-- operations that keep `RdbLenOk`: nothing but a rename ever produces or touches a
+    committed name, and a rename onto `<L>_<S>.rdb` moves a file of `S` bytes -/
+def RdbSafe (fs : FS) : FsOp → Prop
+  | .create n => parseRdbName n = none
+  | .append n _ => parseRdbName n = none
+  | .pwriteHdr n _ => parseRdbName n = none
+  | .rename a b => ∀ L S, parseRdbName b = some (L, S) → ∀ c, fs.get a = some c → c.length = S
+  | .remove _ => True
+
+theorem RdbLenOk_set {fs : FS} (h : RdbLenOk fs) (n : FName) (c : Bytes)
+    (hc : ∀ L S, parseRdbName n = some (L, S) → c.length = S) : RdbLenOk (fs.set n c) := by
+  intro e he L S hp
+  rcases mem_set he with rfl | h'
+  · exact hc L S hp
+  · exact h e h' L S hp
+
+theorem RdbLenOk_del {fs : FS} (h : RdbLenOk fs) (n : FName) : RdbLenOk (fs.del n) := by
+  intro e he
+  exact h e (List.mem_filter.mp he).1
+
+theorem RdbLenOk_apply {fs : FS} (h : RdbLenOk fs) (op : FsOp) (hop : RdbSafe fs op) :
+    RdbLenOk (fs.apply op) := by
+  cases op with
+  | create n => exact RdbLenOk_set h n [] (fun L S hp => by rw [hop] at hp; cases hp)
+  | remove n => exact RdbLenOk_del h n
+  | append n bs =>
+    simp only [FS.apply]
+    cases hg : fs.get n with
+    | none => exact h
+    | some c => exact RdbLenOk_set h n _ (fun L S hp => by rw [hop] at hp; cases hp)
+  | pwriteHdr n hdr =>
+    simp only [FS.apply]
+    cases hg : fs.get n with
+    | none => exact h
+    | some c => exact RdbLenOk_set h n _ (fun L S hp => by rw [hop] at hp; cases hp)
+  | rename a b =>
+    simp only [FS.apply]
+    cases hg : fs.get a with
+    | none => exact h
+    | some c => exact RdbLenOk_set (RdbLenOk_del h a) b c (fun L S hp => hop L S hp c hg)
+
+theorem RdbLenOk_applyAll (ops : List FsOp) :
+    ∀ (fs : FS), RdbLenOk fs →
+      (∀ pre op post, ops = pre ++ op :: post → RdbSafe (fs.applyAll pre) op) →
+      RdbLenOk (fs.applyAll ops) := by
+  induction ops with
+  | nil => intro fs h _; exact h
+  | cons op rest ih =>
+    intro fs h hall
+    show RdbLenOk ((fs.apply op).applyAll rest)
+    apply ih _ (RdbLenOk_apply h op (hall [] op rest rfl))
+    intro pre op' post he
+    exact hall (op :: pre) op' post (by simp [he])
+
+theorem RdbSafe_torn {fs : FS} {n : FName} {bs : Bytes} (k : Nat) (h : RdbSafe fs (.append n bs)) :
+    RdbSafe fs (.append n (bs.take k)) := h
+
+theorem rdbSafe_take {fs : FS} {ops : List FsOp}
+    (hops : ∀ pre op post, ops = pre ++ op :: post → RdbSafe (fs.applyAll pre) op) (n : Nat) :
+    ∀ pre op post, ops.take n = pre ++ op :: post → RdbSafe (fs.applyAll pre) op := by
+  intro pre op post he
+  apply hops pre op (post ++ ops.drop n)
+  have := (List.take_append_drop n ops).symm
+  rw [he] at this
+  refine this.trans ?_
+  simp
+
+theorem RdbLenOk_tornLast {fs : FS} (h : RdbLenOk fs) (xs : List FsOp)
+    (hx : ∀ pre op post, xs = pre ++ op :: post → RdbSafe (fs.applyAll pre) op) (k : Nat) :
+    RdbLenOk (fs.applyAll (tornLast xs k)) := by
+  unfold tornLast
+  cases hl : xs.getLast? with
+  | none => exact RdbLenOk_applyAll xs fs h hx
+  | some last =>
+    cases last with
+    | append nm bs =>
+      simp only []
+      have hxs := dropLast_concat_of_getLast? hl
+      rw [applyAll_append]
+      have hpre : RdbLenOk (fs.applyAll xs.dropLast) := by
+        apply RdbLenOk_applyAll _ _ h
+        intro pre op post he
+        exact hx pre op (post ++ [.append nm bs]) (by rw [← hxs, he]; simp)
+      show RdbLenOk ((fs.applyAll xs.dropLast).apply (.append nm (bs.take k)))
+      apply RdbLenOk_apply hpre
+      exact RdbSafe_torn k (hx xs.dropLast (.append nm bs) [] hxs.symm)
+    | create nm => exact RdbLenOk_applyAll xs fs h hx
+    | pwriteHdr nm hd => exact RdbLenOk_applyAll xs fs h hx
+    | rename a b => exact RdbLenOk_applyAll xs fs h hx
+    | remove nm => exact RdbLenOk_applyAll xs fs h hx
+
+/-! #### file-system algebra -/
+
+theorem find_map_set (l : FS) (n : FName) (c : Bytes) (h : ∃ e ∈ l, e.1 = n) :
+    (l.map (fun e => if e.1 == n then (n, c) else e)).find? (fun e => e.1 == n) = some (n, c) := by
+  induction l with
+  | nil => obtain ⟨e, he, _⟩ := h; cases he
+  | cons a t ih =>
+    simp only [List.map_cons, List.find?_cons]
+    by_cases ha : (a.1 == n) = true
+    · simp [ha]
+    · have ha' : (a.1 == n) = false := by simpa using ha
+      simp only [ha', Bool.false_eq_true, if_false]
+      apply ih
+      obtain ⟨e, he, hen⟩ := h
+      rcases List.mem_cons.mp he with h1 | h1
+      · subst h1; simp [hen] at ha'
+      · exact ⟨e, h1, hen⟩
+
+theorem find_map_ne (l : FS) {n m : FName} (c : Bytes) (h : m ≠ n) :
+    (l.map (fun e => if e.1 == n then (n, c) else e)).find? (fun e => e.1 == m) = l.find? (fun e => e.1 == m) := by
+  induction l with
+  | nil => rfl
+  | cons a t ih =>
+    simp only [List.map_cons, List.find?_cons]
+    by_cases ha : (a.1 == n) = true
+    · have han : a.1 = n := by simpa using ha
+      have h1 : (a.1 == m) = false := by
+        simp only [beq_eq_false_iff_ne, ne_eq]; intro e; exact h (by rw [← e, han])
+      have h2 : (n == m) = false := by
+        simp only [beq_eq_false_iff_ne, ne_eq]; intro e; exact h e.symm
+      simp only [ha, if_true, h1, h2]
+      exact ih
+    · have ha' : (a.1 == n) = false := by simpa using ha
+      simp only [ha', Bool.false_eq_true, if_false]
+      by_cases hm : (a.1 == m) = true
+      · simp [hm]
+      · have hm' : (a.1 == m) = false := by simpa using hm
+        simp only [hm']
+        exact ih
+
+theorem get_isSome_iff (fs : FS) (n : FName) : (fs.get n).isSome = true ↔ ∃ e ∈ fs, e.1 = n := by
+  unfold FS.get
+  cases hf : fs.find? (fun e => e.1 == n) with
+  | none =>
+    simp only [Option.map_none, Option.isSome_none, Bool.false_eq_true, false_iff]
+    rintro ⟨e, he, hen⟩
+    have := List.find?_eq_none.mp hf e he
+    simp [hen] at this
+  | some e =>
+    simp only [Option.map_some, Option.isSome_some, true_iff]
+    have h1 := List.mem_of_find?_eq_some hf
+    have h2 := List.find?_some hf
+    exact ⟨e, h1, by simpa using h2⟩
+
+theorem get_set_eq (fs : FS) (n : FName) (c : Bytes) : (fs.set n c).get n = some c := by
+  unfold FS.set
+  split
+  · rename_i hs
+    unfold FS.get
+    rw [find_map_set fs n c ((get_isSome_iff fs n).mp hs)]
+    rfl
+  · rename_i hs
+    unfold FS.get
+    have hnone : fs.find? (fun e => e.1 == n) = none := by
+      cases hf : fs.find? (fun e => e.1 == n) with
+      | none => rfl
+      | some e =>
+        exfalso; apply hs
+        unfold FS.get; rw [hf]; rfl
+    rw [List.find?_append, hnone]
+    simp
+
+theorem get_set_ne (fs : FS) {n m : FName} (c : Bytes) (h : m ≠ n) : (fs.set n c).get m = fs.get m := by
+  unfold FS.set
+  split
+  · unfold FS.get
+    rw [find_map_ne fs c h]
+  · unfold FS.get
+    rw [List.find?_append]
+    cases hf : fs.find? (fun e => e.1 == m) with
+    | some e => simp
+    | none =>
+      have : (n == m) = false := by
+        simp only [beq_eq_false_iff_ne, ne_eq]; intro e; exact h e.symm
+      simp [this]
+
+theorem get_del_ne (fs : FS) {n m : FName} (h : m ≠ n) : (fs.del n).get m = fs.get m := by
+  unfold FS.del FS.get
+  congr 1
+  induction fs with
+  | nil => rfl
+  | cons a t ih =>
+    simp only [List.filter_cons]
+    by_cases ha : (a.1 != n) = true
+    · simp only [ha, if_true, List.find?_cons]
+      by_cases hm : (a.1 == m) = true
+      · simp [hm]
+      · have hm' : (a.1 == m) = false := by simpa using hm
+        simp only [hm']; exact ih
+    · have han : a.1 = n := by simpa using ha
+      have : (a.1 == m) = false := by
+        simp only [beq_eq_false_iff_ne, ne_eq]; intro e; exact h (by rw [← e, han])
+      simp only [ha, List.find?_cons, this]
+      exact ih
+
+/-! #### the writers' scripts only commit complete snapshots -/
+
+def FsOp.names : FsOp → List FName
+  | .create n => [n]
+  | .append n _ => [n]
+  | .pwriteHdr n _ => [n]
+  | .rename a b => [a, b]
+  | .remove n => [n]
+
+theorem get_apply_other (fs : FS) (op : FsOp) (m : FName) (h : m ∉ op.names) : (fs.apply op).get m = fs.get m := by
+  cases op with
+  | create n => simp [FsOp.names] at h; exact get_set_ne fs [] h
+  | remove n => simp [FsOp.names] at h; exact get_del_ne fs h
+  | append n bs =>
+    simp [FsOp.names] at h
+    simp only [FS.apply]
+    cases fs.get n with
+    | none => rfl
+    | some c => exact get_set_ne fs _ h
+  | pwriteHdr n hdr =>
+    simp [FsOp.names] at h
+    simp only [FS.apply]
+    cases fs.get n with
+    | none => rfl
+    | some c => exact get_set_ne fs _ h
+  | rename a b =>
+    simp [FsOp.names] at h
+    simp only [FS.apply]
+    cases fs.get a with
+    | none => rfl
+    | some c => rw [get_set_ne _ _ h.2, get_del_ne _ h.1]
+
+theorem get_applyAll_other (ops : List FsOp) (fs : FS) (m : FName) (h : ∀ op ∈ ops, m ∉ op.names) :
+    (fs.applyAll ops).get m = fs.get m := by
+  induction ops generalizing fs with
+  | nil => rfl
+  | cons op rest ih =>
+    show ((fs.apply op).applyAll rest).get m = _
+    rw [ih _ (fun o ho => h o (List.mem_cons_of_mem _ ho)), get_apply_other fs op m (h op (by simp))]
+
+/-- the temporary file of a snapshot being written holds exactly the bytes written so far -/
+def TmpRel (s : Disk) (fs : FS) : Prop :=
+  ∀ r, s.rdb = some r → r.writing = true → fs.get (rdbTmpName r.left r.size) = some r.data
+
+/-- operations on stream files and committed snapshots: never a temporary name, never unsafe -/
+def AofOrFinalOnly (ops : List FsOp) : Prop :=
+  ∀ op ∈ ops, (∀ l s, rdbTmpName l s ∉ op.names) ∧ (∀ fs, RdbSafe fs op)
+
+theorem closeLiveOps_aof (s : Disk) : AofOrFinalOnly (closeLiveOps s) := by
+  intro op hop
+  unfold closeLiveOps at hop
+  split at hop
+  · simp at hop
+  · split at hop <;> (simp at hop; subst hop; exact ⟨by intro l s; simp [FsOp.names, aofName, rdbTmpName], by intro fs; simp [RdbSafe, aofName, parseRdbName]⟩)
+
+theorem safe_of_aofOnly {ops : List FsOp} (h : AofOrFinalOnly ops) (fs : FS) :
+    ∀ p1 op p2, ops = p1 ++ op :: p2 → RdbSafe (fs.applyAll p1) op := by
+  intro p1 op p2 he
+  exact (h op (by rw [he]; simp)).2 _
+
+theorem tmpRel_of_aofOnly {ops : List FsOp} (h : AofOrFinalOnly ops) {s s' : Disk} {fs : FS}
+    (hr : TmpRel s fs) (hrdb : ∀ r, s'.rdb = some r → r.writing = true → s.rdb = some r) :
+    TmpRel s' (fs.applyAll ops) := by
+  intro r hr' hw
+  rw [get_applyAll_other ops fs _ (fun op hop => (h op hop).1 r.left r.size)]
+  exact hr r (hrdb r hr' hw) hw
+
+theorem parseRdbName_rdbName {l s L S : Nat} (h : parseRdbName (rdbName l s) = some (L, S)) : l = L ∧ s = S := by
+  simp [parseRdbName, rdbName] at h; exact h
+
+theorem truncateGap_rdb (rdb : Option DRdb) (segs : List DSeg) :
+    (truncateGap rdb segs).1 = none ∨ (truncateGap rdb segs).1 = rdb := by
+  unfold truncateGap
+  simp only []
+  repeat' split
+  all_goals simp_all
+
+theorem rescan_rdb_not_writing (s : Disk) : ∀ r, s.rescan.rdb = some r → r.writing = false := by
+  intro r hr
+  have hrdb : s.rescan.rdb = (truncateGap (match s.rdb with
+      | some r => if r.final then some { r with writing := false } else none
+      | none => none) (sortSegs (s.all.filter (fun g => !g.data.isEmpty)))).1 := rfl
+  rw [hrdb] at hr
+  rcases truncateGap_rdb (match s.rdb with
+      | some r => if r.final then some { r with writing := false } else none
+      | none => none) (sortSegs (s.all.filter (fun g => !g.data.isEmpty))) with h | h
+  · rw [h] at hr; cases hr
+  · rw [h] at hr
+    split at hr
+    · split at hr
+      · simp at hr; subst hr; rfl
+      · cases hr
+    · cases hr
+
+/-- one writer step: its file operations are safe where they are applied, and the
+    temporary-file relation holds again afterwards -/
+theorem fsOps_step (s : Disk) (fs : FS) (op : DOp) (hok : s.okOp op) (hr : TmpRel s fs) :
+    (∀ p1 o p2, fsOps s op = p1 ++ o :: p2 → RdbSafe (fs.applyAll p1) o) ∧
+    TmpRel (s.step op).1 (fs.applyAll (fsOps s op)) := by
+  have nil_case : ∀ (s' : Disk), (∀ r, s'.rdb = some r → r.writing = true → s.rdb = some r) →
+      (∀ p1 o p2, ([] : List FsOp) = p1 ++ o :: p2 → RdbSafe (fs.applyAll p1) o) ∧ TmpRel s' (fs.applyAll []) := by
+    intro s' h
+    refine ⟨fun p1 o p2 he => by simp at he, ?_⟩
+    intro r hr' hw
+    exact hr r (h r hr' hw) hw
+  cases op with
+  | newRdbWriter off size =>
+    simp only [fsOps]
+    constructor
+    · intro p1 o p2 he
+      -- every operation is a remove, a header rewrite / remove of a stream file, or the creation of the temporary file
+      have hm : o ∈ resetOps s ++ [FsOp.create (rdbTmpName off size)] := by rw [he]; simp
+      rcases List.mem_append.mp hm with h1 | h1
+      · unfold resetOps at h1
+        simp only [List.mem_append] at h1
+        rcases h1 with (h1 | h1) | h1
+        · split at h1
+          · split at h1 <;> simp at h1
+            subst h1; trivial
+          · simp at h1
+        · exact (closeLiveOps_aof s o h1).2 _
+        · obtain ⟨n, _, rfl⟩ := List.mem_map.mp h1; trivial
+      · simp at h1; subst h1; simp [RdbSafe, rdbTmpName, parseRdbName]
+    · intro r hr' hw
+      simp only [Disk.step] at hr'
+      simp at hr'; subst hr'
+      rw [applyAll_append]
+      show ((fs.applyAll (resetOps s)).apply (.create (rdbTmpName off size))).get (rdbTmpName off size) = some []
+      exact get_set_eq _ _ _
+  | rdbAppend chunk =>
+    simp only [fsOps, Disk.step]
+    cases hrdb : s.rdb with
+    | none => simp only []; exact nil_case s (fun r h _ => h)
+    | some r =>
+      simp only []
+      by_cases hw : r.writing = true
+      · simp only [hw, if_true]
+        have htmp := hr r hrdb hw
+        have happ : (fs.apply (.append (rdbTmpName r.left r.size) chunk)).get (rdbTmpName r.left r.size) =
+            some (r.data ++ chunk) := by
+          simp only [FS.apply, htmp]; exact get_set_eq _ _ _
+        by_cases hc : r.data.length + chunk.length = r.size
+        · have hc' : (r.data ++ chunk).length = r.size := by simp [hc]
+          simp only [hc, hc', if_true]
+          constructor
+          · intro p1 o p2 he
+            -- two operations: the append, then the rename
+            cases p1 with
+            | nil =>
+              simp at he; rw [← he.1]; simp [RdbSafe, rdbTmpName, parseRdbName]
+            | cons a t =>
+              cases t with
+              | nil =>
+                simp at he
+                obtain ⟨ha, ho, _⟩ := he
+                subst ha; subst ho
+                intro L S hp c hcget
+                obtain ⟨_, hS⟩ := parseRdbName_rdbName hp
+                have : c = r.data ++ chunk := by
+                  have : (FS.applyAll fs [FsOp.append (rdbTmpName r.left r.size) chunk]).get (rdbTmpName r.left r.size) = some c := hcget
+                  rw [show FS.applyAll fs [FsOp.append (rdbTmpName r.left r.size) chunk] = fs.apply (.append (rdbTmpName r.left r.size) chunk) from rfl, happ] at this
+                  cases this; rfl
+                rw [this, hc', hS]
+              | cons b u => simp at he
+          · intro r' hr' hw'
+            simp at hr'; subst hr'; simp at hw'
+        · have hc' : ¬ (r.data ++ chunk).length = r.size := by simp; exact hc
+          simp only [hc, hc', if_false, List.append_nil]
+          constructor
+          · intro p1 o p2 he
+            cases p1 with
+            | nil => simp at he; rw [← he.1]; simp [RdbSafe, rdbTmpName, parseRdbName]
+            | cons a t => simp at he
+          · intro r' hr' hw'
+            simp at hr'; subst hr'
+            exact happ
+      · simp only [hw]
+        exact nil_case s (fun r h _ => h)
+  | rdbClose =>
+    simp only [fsOps, Disk.step]
+    cases hrdb : s.rdb with
+    | none => simp only []; exact nil_case s (fun r h _ => h)
+    | some r =>
+      simp only []
+      by_cases hw : r.writing = true
+      · simp only [hw, if_true]
+        constructor
+        · intro p1 o p2 he
+          cases p1 with
+          | nil => simp at he; rw [← he.1]; trivial
+          | cons a t => simp at he
+        · intro r' hr'; simp at hr'
+      · simp only [hw]
+        exact nil_case s (fun r h _ => h)
+  | newAofWriter off =>
+    have hops : AofOrFinalOnly (closeLiveOps s ++ [FsOp.create (aofName off), FsOp.append (aofName off) fixHeader]) := by
+      intro o ho
+      rcases List.mem_append.mp ho with h1 | h1
+      · exact closeLiveOps_aof s o h1
+      · simp at h1
+        rcases h1 with rfl | rfl <;>
+          exact ⟨by intro l s; simp [FsOp.names, aofName, rdbTmpName], by intro fs; simp [RdbSafe, aofName, parseRdbName]⟩
+    simp only [fsOps]
+    refine ⟨safe_of_aofOnly hops fs, tmpRel_of_aofOnly hops hr ?_⟩
+    intro r hr' _
+    simp only [Disk.step] at hr'
+    have := (closeLive_hist s).2.2
+    simpa [this] using hr'
+  | aofAppend chunk =>
+    simp only [fsOps]
+    cases hl : s.live with
+    | none =>
+      simp only []
+      apply nil_case
+      intro r hr' _
+      simp only [Disk.step, Disk.appendLive, hl] at hr'
+      exact hr'
+    | some g =>
+      simp only []
+      have hops : AofOrFinalOnly ([FsOp.append (aofName g.left) chunk] ++
+          (if 16 + (g.data ++ chunk).length > s.logSize then
+            [FsOp.pwriteHdr (aofName g.left) (closedHeader (g.data ++ chunk)),
+             FsOp.create (aofName (g.left + (g.data ++ chunk).length)),
+             FsOp.append (aofName (g.left + (g.data ++ chunk).length)) fixHeader]
+           else [])) := by
+        intro o ho
+        have : ∃ n, o.names = [aofName n] ∧ (∀ fs, RdbSafe fs o) := by
+          rcases List.mem_append.mp ho with h1 | h1
+          · simp at h1; subst h1; exact ⟨_, rfl, by intro fs; simp [RdbSafe, aofName, parseRdbName]⟩
+          · split at h1
+            · simp at h1
+              rcases h1 with rfl | rfl | rfl <;>
+                exact ⟨_, rfl, by intro fs; simp [RdbSafe, aofName, parseRdbName]⟩
+            · simp at h1
+        obtain ⟨n, hn, hs⟩ := this
+        exact ⟨by intro l s; rw [hn]; simp [aofName, rdbTmpName], hs⟩
+      refine ⟨safe_of_aofOnly hops fs, tmpRel_of_aofOnly hops hr ?_⟩
+      intro r hr' _
+      simp only [Disk.step, Disk.appendLive, hl] at hr'
+      split at hr' <;> simpa using hr'
+  | aofClose =>
+    simp only [fsOps]
+    refine ⟨safe_of_aofOnly (closeLiveOps_aof s) fs, tmpRel_of_aofOnly (closeLiveOps_aof s) hr ?_⟩
+    intro r hr' _
+    simp only [Disk.step] at hr'
+    rw [(closeLive_hist s).2.2] at hr'
+    exact hr'
+  | gc =>
+    have hops : AofOrFinalOnly (fsOps s .gc) := by
+      intro o ho
+      simp only [fsOps, List.mem_append] at ho
+      rcases ho with h1 | h1
+      · split at h1
+        · simp at h1; subst h1
+          exact ⟨by intro l s; simp [FsOp.names, rdbName, rdbTmpName], by intro fs; trivial⟩
+        · simp at h1
+      · obtain ⟨g, _, rfl⟩ := List.mem_map.mp h1
+        exact ⟨by intro l s; simp [FsOp.names, aofName, rdbTmpName], by intro fs; trivial⟩
+    refine ⟨safe_of_aofOnly hops fs, tmpRel_of_aofOnly hops hr ?_⟩
+    intro r hr' _
+    simp only [Disk.step, Disk.gc] at hr'
+    repeat' split at hr'
+    all_goals simp_all
+  | setRunId id =>
+    simp only [fsOps]
+    apply nil_case
+    intro r hr' hw
+    simp only [Disk.step] at hr'
+    split at hr'
+    · simp [Disk.reset] at hr'
+    · split at hr'
+      · exact hr'
+      · have := rescan_rdb_not_writing s.closeAllForSwitch r hr'
+        rw [this] at hw; cases hw
+  | delRunId =>
+    simp only [fsOps]
+    apply nil_case
+    intro r hr' _
+    simp only [Disk.step] at hr'
+    split at hr'
+    · exact hr'
+    · simp [Disk.reset] at hr'
+  | openReader rid off crcOk =>
+    simp only [fsOps]
+    apply nil_case
+    intro r hr' _
+    simp only [Disk.step, Disk.open] at hr'
+    repeat' split at hr'
+    all_goals simp_all
+  | read rid n =>
+    simp only [fsOps]
+    apply nil_case
+    intro r hr' _
+    simp only [Disk.step, Disk.read] at hr'
+    repeat' split at hr'
+    all_goals simp_all
+  | advAcquire rid =>
+    simp only [fsOps]
+    apply nil_case
+    intro r hr' _
+    simp only [Disk.step, Disk.advAcquire] at hr'
+    repeat' split at hr'
+    all_goals simp_all
+  | advRelease rid =>
+    simp only [fsOps]
+    apply nil_case
+    intro r hr' _
+    simp only [Disk.step, Disk.advRelease] at hr'
+    repeat' split at hr'
+    all_goals simp_all
+  | closeReader rid =>
+    simp only [fsOps]
+    apply nil_case
+    intro r hr' _
+    simp only [Disk.step, Disk.closeReader] at hr'
+    repeat' split at hr'
+    all_goals simp_all
+
+theorem append_eq_split {α} (a b pre post : List α) (x : α) (h : a ++ b = pre ++ x :: post) :
+    (∃ p2, a = pre ++ x :: p2 ∧ post = p2 ++ b) ∨ (∃ p1, pre = a ++ p1 ∧ b = p1 ++ x :: post) := by
+  induction a generalizing pre with
+  | nil => right; exact ⟨pre, by simp, by simpa using h⟩
+  | cons y t ih =>
+    cases pre with
+    | nil =>
+      simp at h
+      left; exact ⟨t, by simp [h.1], h.2.symm⟩
+    | cons z u =>
+      simp at h
+      rcases ih u h.2 with ⟨p2, h1, h2⟩ | ⟨p1, h1, h2⟩
+      · left; exact ⟨p2, by simp [h.1, h1], h2⟩
+      · right; exact ⟨p1, by simp [h.1, h1], h2⟩
+
+/-- every file operation of a writers' script is safe where it is applied -/
+theorem scriptOps_safe (ops : List DOp) :
+    ∀ (s : Disk) (fs : FS), s.wf ops → TmpRel s fs →
+      ∀ pre op post, scriptOps s ops = pre ++ op :: post → RdbSafe (fs.applyAll pre) op := by
+  induction ops with
+  | nil => intro s fs _ _ pre op post he; simp [scriptOps] at he
+  | cons o rest ih =>
+    intro s fs hwf hr pre op post he
+    obtain ⟨hsafe, hrel⟩ := fsOps_step s fs o hwf.1 hr
+    simp only [scriptOps] at he
+    rcases append_eq_split _ _ _ _ _ he with ⟨p2, h1, _⟩ | ⟨p1, h1, h2⟩
+    · exact hsafe pre op p2 h1
+    · rw [h1, applyAll_append]
+      exact ih _ _ hwf.2 hrel p1 op post h2
+
+theorem tmpRel_init (l m : Nat) : TmpRel (Disk.init l m) [] := by
+  intro r hr; simp [Disk.init] at hr
+
+/-- at every crash instant of every script, committed snapshot files are complete -/
+theorem crashImage_rdbLenOk (l m : Nat) (ops : List DOp) (hwf : (Disk.init l m).wf ops) (n k : Nat) :
+    RdbLenOk (crashImage [] (scriptOps (Disk.init l m) ops) n k) := by
+  unfold crashImage
+  apply RdbLenOk_tornLast (by intro e he; cases he)
+  exact rdbSafe_take (scriptOps_safe ops _ _ hwf (tmpRel_init l m)) n
+
+theorem get_some_of_mem {fs : FS} {n : FName} {c : Bytes} (h : (n, c) ∈ fs) : ∃ c', fs.get n = some c' ∧ (n, c') ∈ fs := by
+  have : (fs.get n).isSome = true := (get_isSome_iff fs n).mpr ⟨(n, c), h, rfl⟩
+  obtain ⟨c', hc'⟩ := Option.isSome_iff_exists.mp this
+  exact ⟨c', hc', get_some_mem hc'⟩
+
+/-! ### no byte of a failing segment, wherever it is in the chain -/
+
+theorem serveFrom_stops_at_corrupt (fs : FS) (pre : List DSeg) (g : DSeg) (post : List DSeg) (off : Nat)
+    (file : Bytes) (hf : fs.get (aofName g.left) = some file) (hbad : segVerifyOk file = false) :
+    (serveFrom fs true (pre ++ g :: post) off).1.length ≤ (pre.map (·.data.length)).sum ∧
+    (serveFrom fs true (pre ++ g :: post) off).2 ≠ ServeEnd.eof := by
+  induction pre generalizing off with
+  | nil =>
+    simp only [List.nil_append, serveFrom_refuses fs g post off file hf hbad]
+    simp
+  | cons a t ih =>
+    simp only [List.cons_append, serveFrom]
+    cases hg : fs.get (aofName a.left) with
+    | none => simp
+    | some fa =>
+      simp only []
+      split
+      · simp
+      · obtain ⟨h1, h2⟩ := ih a.right
+        simp only [List.map_cons, List.sum_cons, List.length_append, List.length_drop]
+        exact ⟨by omega, h2⟩
+
+theorem segVerifyOk_altered_crc (data : Bytes) (c : Nat) (hc : c < 2 ^ 64) (hne : c ≠ crc64 data) :
+    segVerifyOk ((1 :: (leBytes 8 c ++ leBytes 4 (data.length % 4294967296) ++ [0, 0, 0])) ++ data) = false := by
+  have hcrc : (((1 :: (leBytes 8 c ++ leBytes 4 (data.length % 4294967296) ++ [0, 0, 0])) ++ data).drop 1).take 8 = leBytes 8 c := by
+    simp only [List.cons_append, List.drop_succ_cons, List.drop_zero, List.append_assoc]
+    rw [List.take_append_of_le_length (by simp [leBytes_length]), List.take_of_length_le (by simp [leBytes_length])]
+  have hdata : ((1 :: (leBytes 8 c ++ leBytes 4 (data.length % 4294967296) ++ [0, 0, 0])) ++ data).drop headerSize = data := by
+    have hl : (1 :: (leBytes 8 c ++ leBytes 4 (data.length % 4294967296) ++ [0, 0, 0])).length = headerSize := by
+      simp [leBytes_length, headerSize]
+    rw [List.drop_append_of_le_length (by omega), List.drop_of_length_le (by omega)]
+    rfl
+  unfold segVerifyOk
+  rw [hcrc, hdata, ofLE_leBytes]
+  have : c % 256 ^ 8 = c := Nat.mod_eq_of_lt (by omega)
+  rw [this]
+  have hne' : (c == crc64 data) = false := by simpa using hne
+  simp [hne']
+
 end GunYu.StoreFs
